@@ -1061,6 +1061,35 @@ def radial_oracle(ctx):
                     ctx.oracle_fail(name + ":outside-contour",
                                     f"latent point with radius {float(np.nanmax(nr))} > r*fuzz = {r * fuzz}", case)
             ctx.case(("radial", dims, r, fuzz, n, k), True, case if k < 2 else None, kind="radial")
+        # the proposal's own preparation step, over SEQUENCES of radii on one object (a population with a new worst point
+        # gets a new radius; a latent sampler that keeps anything from the previous radius draws outside the new contour —
+        # seeded change C09-c)
+        from nessai.proposal.flowproposal import FlowProposal
+        for k in range(ctx.scale(30, 200)):
+            lp = rng.choice(["truncated_gaussian", "uniform_nball", "uniform_nsphere"])
+            dims = rng.choice([1, 2, 3, 8])
+            fuzz = rng.choice([1.0, 1.05, 1.5])
+            radii = [rng.choice([0.3, 1.0, 1.3545, 2.5, 4.0, 9.0]) for _ in range(rng.randint(2, 5))]
+            np.random.seed(rng.getrandbits(32))
+            fp = FlowProposal.__new__(FlowProposal)
+            fp.latent_prior, fp.parameters, fp.fuzz = lp, [f"p{i}" for i in range(dims)], fuzz
+            try:
+                fp.configure_latent_prior()
+            except Exception as e:  # noqa
+                ctx.oracle_fail("FlowProposal.configure_latent_prior:raised", repr(e), dict(layer="radial-seq", latent_prior=lp))
+                continue
+            case = dict(layer="radial-seq", latent_prior=lp, dims=dims, fuzz=fuzz, radii=radii)
+            for j, r in enumerate(radii):
+                fp.r = r
+                fp.prep_latent_prior()
+                z = np.asarray(fp.draw_latent_prior(400))
+                nr = np.sqrt(np.sum(z ** 2, axis=1))
+                if z.shape != (400, dims) or not np.all(np.isfinite(nr)) or np.any(nr > r * fuzz * (1 + tol)):
+                    ctx.oracle_fail("FlowProposal.prep_latent_prior:outside-contour",
+                                    f"population #{j} (r={r}, previous radii {radii[:j]}): {int(np.sum(nr > r * fuzz * (1 + tol)))} of "
+                                    f"{len(nr)} latent draws have radius up to {float(np.nanmax(nr))} > r*fuzz = {r * fuzz}", case)
+                    break
+            ctx.case(("radial-seq", lp, dims, fuzz, tuple(radii)), True, case if k < 2 else None, kind="radial-seq:" + lp)
     finally:
         np.random.set_state(state)
 
@@ -1136,6 +1165,19 @@ def real_runs(ctx):
         orig_populate(self, worst_point, N=N, **kw)
         pools.append((N, self.samples.copy(), list(self.indices), bool(self.accumulate_weights)))
 
+    latent_bad = []
+    orig_draw_latent = FlowProposal.draw_latent_prior
+
+    def spy_draw_latent(self, n):
+        z = orig_draw_latent(self, n)
+        if self.latent_prior in ("truncated_gaussian", "uniform_nball", "uniform_nsphere") and self.r is not None \
+                and np.isfinite(self.r):
+            nr = np.sqrt(np.sum(np.asarray(z) ** 2, axis=1))
+            lim = self.r * self.fuzz * (1 + 1e-9)
+            if np.any(nr > lim):
+                latent_bad.append((float(nr.max()), float(self.r * self.fuzz), int(np.sum(nr > lim)), len(nr)))
+        return z
+
     configs = [dict(kind="ns", holes=False, kw=dict()),
                dict(kind="ns", holes=True, kw=dict(latent_prior="truncated_gaussian", constant_volume_mode=False)),
                dict(kind="ns-acc", holes=False, kw=dict(accumulate_weights=True)),
@@ -1156,11 +1198,13 @@ def real_runs(ctx):
         case = dict(layer="real-run", config={k_: v for k_, v in cfg.items()}, seed=seed)
         t0 = time.time()
         pools.clear()
+        latent_bad.clear()
         cur["max_samples"] = cfg.get("max_samples")
         old_handler = signal.signal(signal.SIGALRM, on_alarm)
         signal.setitimer(signal.ITIMER_REAL, limit)
         try:
-            with mock.patch.object(FlowProposal, "populate", spy_populate), np.errstate(all="ignore"):
+            with mock.patch.object(FlowProposal, "populate", spy_populate), \
+                    mock.patch.object(FlowProposal, "draw_latent_prior", spy_draw_latent), np.errstate(all="ignore"):
                 if cfg["kind"] == "ins":
                     fs = FlowSampler(model, output=out, importance_nested_sampler=True, nlive=120, min_samples=30,
                                      max_iteration=ctx.scale(5, 10), plot=False, resume=False, seed=seed, log_on_iteration=False,
@@ -1183,6 +1227,10 @@ def real_runs(ctx):
             signal.signal(signal.SIGALRM, old_handler)
             reset_extra_live_points_parameters()
         site = "real-run:" + cfg["kind"]
+        if latent_bad:
+            ctx.oracle_fail(site + ":latent-outside-contour",
+                            f"{len(latent_bad)} latent batches of the run contain points outside the current contour, first: "
+                            f"radius {latent_bad[0][0]} > r*fuzz = {latent_bad[0][1]} ({latent_bad[0][2]} of {latent_bad[0][3]} draws)", case)
         if model.bad:
             ctx.oracle_fail(site + ":likelihood-out-of-support",
                             f"log_likelihood called on {len(model.bad)} point(s) outside the prior support, first {model.bad[0]}", case)
